@@ -17,7 +17,7 @@ from ..corpus import b64, unb64
 PROP = "C16"
 LEVEL = "exploration"
 COUNTS = {"quick": 330, "thorough": 9000}
-WALL = {"quick": 170, "thorough": 3300}
+WALL = {"quick": 900, "thorough": 6000}
 RULE = (
     "scenario = one pool document (edge documents first: CRLF, lone CR, no final newline, BOM, 2/3/4-byte UTF-8, long lines) x a rule "
     "selection expressible both on the command line and through the API x diagnostics options x locale class x stdin chunking; "
